@@ -214,8 +214,15 @@ Definition after_delete_expired (cfg : bcfg) (s : bstate) (now : time) (B : list
   then List.filter (fun e => negb (long_expired (now - eff_del_after cfg) e)) B
   else B.
 
-(* C11 on the implementation's own observations: in every window [Walk B; cleanup at now; Walk A]
-   A is B minus exactly the entries expired longer than DeleteExpiredAfter *)
+(* the content a Walk showed, updated by a later write (same shard slot = same hash: the write replaces) *)
+Definition apply_write (hash : key -> N) (cfg : bcfg) (B : list entry) (k : key) (v : val) (t : dur) (now : time) (jit : Z)
+  : list entry :=
+  mkEntry k v (expire_at now (trait_ttl cfg t jit).1) 0
+    :: List.filter (fun e => negb (hash (eK e) =? hash k)%N) B.
+
+(* C11 on the implementation's own observations: in every window [Walk B; writes ...; cleanup at now; Walk A]
+   A is B (with the writes applied) minus exactly the entries expired longer than DeleteExpiredAfter: fresh and
+   never-expiring entries survive, whether they were there before or were written while the cycle was under way *)
 Fixpoint c11_scan (hash : key -> N) (cfg : bcfg) (s : bstate) (ops : list bop) (res : list bres)
          (prev : option (list entry)) : bool :=
   match ops, res with
@@ -226,7 +233,12 @@ Fixpoint c11_scan (hash : key -> N) (cfg : bcfg) (s : bstate) (ops : list bop) (
                   bool_decide (map strip_e A ≡ₚ map strip_e (after_delete_expired cfg s now B))
               | _, _, _ => true
               end in
-    ok && c11_scan hash cfg s' ops' res' (match r with RWalk l => Some l | _ => None end)
+    ok && c11_scan hash cfg s' ops' res'
+            (match o, r, prev with
+             | _, RWalk l, _ => Some l
+             | OWrite k v t now jit, _, Some B => Some (apply_write hash cfg B k v t now jit)
+             | _, _, _ => None
+             end)
   | _, _ => true
   end.
 
